@@ -33,7 +33,7 @@ func genCase(t *rapid.T) Case {
 	// the IO opcodes have different widths (1, 2, 3 bits) in every combination
 	ports := []int{2, 2, 3, 5}
 	maxIn, maxOut := rapid.SampledFrom(ports).Draw(t, "maxin"), rapid.SampledFrom(ports).Draw(t, "maxout")
-	c.Spec = gen.HandshakeMachine(t, gen.HSOptions{MaxProcs: 4, MaxPad: 3, MaxIn: maxIn, MaxOut: maxOut, NoFanout: nofan, EqualLoops: rapid.Bool().Draw(t, "equalloops"), Replicate: true, RichALU: rapid.Bool().Draw(t, "richalu"), RAM: true})
+	c.Spec = gen.HandshakeMachine(t, gen.HSOptions{MaxProcs: 4, MaxPad: 3, MaxIn: maxIn, MaxOut: maxOut, NoFanout: nofan, EqualLoops: rapid.Bool().Draw(t, "equalloops"), Replicate: true, RichALU: rapid.Bool().Draw(t, "richalu"), RAM: true, Thru: true})
 	c.Commented = rapid.IntRange(0, 3).Draw(t, "commented") == 0
 	for i := 0; i < c.Spec.Inputs; i++ {
 		n := rapid.IntRange(0, 20).Draw(t, "nin")
@@ -343,13 +343,38 @@ func prop(c Case) pbt.Outcome {
 				break
 			}
 		}
-		// prefix-wise comparison says nothing about a side that delivers nothing at all: the horizons (T ticks,
-		// 4T cycles) are generous enough that a side with >=3 values against an empty one is not a matter of speed
+		// prefix-wise comparison says nothing about a side that delivers nothing at all. The two horizons are
+		// not comparable as speeds (an instruction is one tick, or 1+delay ticks, in the simulator and two or
+		// more cycles plus the handshake in hardware), so a side found empty against >=3 values is given forty
+		// times its horizon before it is called dead: a slow machine catches up, a dead one never does.
 		if fail == nil && len(a) >= 3 && len(b) == 0 {
-			fail = pbt.Failf("hdl-starved", "external output o%d: simulation delivers %v in %d ticks, the generated hardware delivers nothing in %d cycles", o, a, c.Ticks, 4*c.Ticks)
+			for t := 0; t < 160*c.Ticks && len(hr.Out[o]) == 0; t++ {
+				hmon.before(hr)
+				if err := hr.Step(); err != nil {
+					return pbt.Outcome{Fail: pbt.Failf("interp", "%v", err)}
+				}
+			}
+			if len(hr.Out[o]) == 0 {
+				fail = pbt.Failf("hdl-starved", "external output o%d: simulation delivers %v in %d ticks, the generated hardware delivers nothing in %d cycles", o, a, c.Ticks, 164*c.Ticks)
+			}
 		}
 		if fail == nil && len(b) >= 3 && len(a) == 0 {
-			fail = pbt.Failf("sim-starved", "external output o%d: the generated hardware delivers %v in %d cycles, the simulation delivers nothing in %d ticks", o, b, 4*c.Ticks, c.Ticks)
+			maxDelay := 0
+			for _, d := range c.Delays {
+				if d > maxDelay {
+					maxDelay = d
+				}
+			}
+			budget := 40 * c.Ticks * (1 + maxDelay)
+			for t := 0; t < budget && len(sr.Out[o]) == 0; t++ {
+				mon.before(sr)
+				if err := sr.Step(); err != nil {
+					return pbt.Outcome{Fail: pbt.Failf("sim-step", "%v", err)}
+				}
+			}
+			if len(sr.Out[o]) == 0 {
+				fail = pbt.Failf("sim-starved", "external output o%d: the generated hardware delivers %v in %d cycles, the simulation delivers nothing in %d ticks", o, b, 4*c.Ticks, c.Ticks+budget)
+			}
 		}
 		if fail != nil {
 			break
